@@ -3,6 +3,9 @@ mod cmp;
 mod props_bounds;
 mod props_tp;
 mod props_hyg;
+mod mir;
+mod props_mir;
+mod props_entry;
 mod eval;
 mod gate;
 mod index;
@@ -56,6 +59,10 @@ fn main() {
         "C05" => props::c05(&cx),
         "C06" => props::c06(&cx),
         "C17" => props::c17(&cx),
+        "C14" => props_entry::c14(&cx),
+        "C15" => props_entry::c15(&cx),
+        "C16" => props_mir::c16(&cx),
+        "C19" => props_entry::c19(&cx),
         "C12" => props_hyg::c12(&cx),
         "C13" => props_hyg::c13(&cx),
         "C20" => props_hyg::c20(&cx),
